@@ -107,10 +107,9 @@ CHECKS = {
     "C18": {"runs": [
                      {"name": "tsan", "plan": "tsan", "srcs": T_SRCS, "san": "tsan", "hooks": True, "nosan": ("vsched.c",), "opts": {"quick": {"bound": 1, "drivers": 7, "bound3": 1}, "thorough": {"bound": 2, "drvmask": 0x403ff, "bound3": 1}}},
                      # data plane only, on instances created before the threads start: the threads take read locks only, so nothing orders them for TSan
-                     # thorough: two preemptions on the shared-descriptor driver Urs, one on the other seven; TSan reports a
-                     # data-plane race in every schedule anyway, the deeper bound is for the outputs
-                     {"name": "tsan-data", "plan": "tsan", "srcs": T_SRCS, "san": "tsan", "hooks": True, "nosan": ("vsched.c",), "weight": 3, "opts": {"quick": {"bound": 1, "drvmask": 0x3fc00}, "thorough": {"bound": 2, "drvmask": 0x400}}},
-                     {"name": "tsan-data-b1", "plan": "tsan", "srcs": T_SRCS, "san": "tsan", "hooks": True, "nosan": ("vsched.c",), "tiers": ("thorough",), "opts": {"thorough": {"bound": 1, "drvmask": 0x3f800}}},
+                     # one preemption in both tiers: TSan reports a data-plane race in every schedule anyway, and two preemptions over the
+                     # ~330 scheduling points of these workloads cost 10^5 executions per driver
+                     {"name": "tsan-data", "plan": "tsan", "srcs": T_SRCS, "san": "tsan", "hooks": True, "nosan": ("vsched.c",), "opts": {"quick": {"bound": 1, "drvmask": 0x3fc00}, "thorough": {"bound": 1, "drvmask": 0x3fc00}}},
                      {"name": "asan-data", "plan": "asan", "srcs": T_SRCS, "san": "asan", "hooks": True, "nosan": ("vsched.c",), "opts": {"quick": {"bound": 1, "drvmask": 0x3fc00}, "thorough": {"bound": 1, "drvmask": 0x3fc00}}},
                      # bound 3 on the life-cycle drivers is the most expensive run: last, with the largest share of whatever time is left
                      {"name": "asan", "plan": "asan", "srcs": T_SRCS, "san": "asan", "hooks": True, "nosan": ("vsched.c",), "weight": 4, "opts": {"quick": {"bound": 2, "drivers": 7, "bound3": 1}, "thorough": {"bound": 3, "drvmask": 0x403ff, "bound3": 2}}}],
